@@ -131,4 +131,17 @@ PROPS = {
                 "Non-trivial: at least two tasks were inside Do for the same key while f was running. Distinct by case; enumerated executions are distinct by construction.",
         "assumptions": ["the instrumented copy of par/work.go is generated from the current working tree on every run"],
     },
+    "C12": {
+        "pkg": "c12_putfault",
+        "level": "fault_enumeration",
+        "engine": "fos+enum+rapid",
+        "instr": ["cache:cachex", "lockedfile:lockedfilex", "lockedfile/internal/filelock:lockedfilex/internal/filelock"],
+        "technique": "fault enumeration as generated-input search: cache.go is re-compiled against an os shim that numbers file operations; every operation index x fault kind x short-write cut is enumerated for 17 scenarios, crossed with misbehaving source readers (error, early EOF, extra bytes, changed bytes on pass 2, Seek failure) at 5-10 offsets; rapid draws further products; thorough adds real SIGKILLs of a writer process. Oracle = lookups by the uninstrumented package verified by hash/size.",
+        "level_text": "For each scenario (new entry of 0/139/4096/4097 bytes, overwrite with other size, re-put, content shared with another id, output pre-damaged shorter/longer/flipped/empty) the fault-free operation trace of Put is recorded and a fault is injected at every operation: fail, short write then fail, halt before, halt after, halt after a short write. The same is done on top of every source misbehaviour. After each run the real package must return not-found or hash-verified bytes (and, from an undamaged start, GetFile must name a file with the reported size and hash), unrelated entries must be intact, and a later Put must succeed.",
+        "level_note": "Crash model: execution halts between two file operations of the activity (written data persists, deferred file operations of the halted activity do nothing); power-loss reordering is outside the property. Trusted: the os shim (harness/shim/fos) and the instrumenter. One fault per dimension: an entry that shares the target's content is asserted intact only under single faults.",
+        "shards": {"quick": 4, "thorough": 16},
+        "rule": "run = (scenario, source behaviour, operation index k, fault kind, cut): exhaustive over k (all operations of the fault-free trace), kinds and cuts {0,1,n/2,n-1} for 17 scenarios x {1,3} unrelated entries; the same enumeration on top of each of 9 source behaviours x offsets {0,1,mid,size-1,size} (thorough: 10 offsets, larger content); plus rapid-drawn products; thorough: 60 SIGKILL rounds per shard. "
+                "Non-trivial: the fault lands after the first data byte of the output or index was written and before Put returned (or a source fault is active). Runs are distinct by construction.",
+        "assumptions": ["single-process crash model at file-operation granularity", "GODEBUG cleared"],
+    },
 }
